@@ -287,6 +287,10 @@ func checkC17(c *Check) {
 		c.SawFunc(fi.Name())
 		ok, msg := splitComplement(p, fi)
 		c.Hold("R5", "address.Split", fi.Decl.Pos(), ok, msg)
+		// what Split returns is the caller's spelling: the argument, a slice of it, or nothing – never other text
+		// (`return "postmaster", "", nil` for <Postmaster> changes the address on its way through CleanDomain)
+		ok, msg = splitReturnsSubstrings(p, fi)
+		c.Hold("R5", "address.Split:substrings", fi.Decl.Pos(), ok, msg)
 	}
 
 	// ---- R7: bytes are not characters. Quoting and unquoting copy the characters of the local part one by one; the
@@ -946,6 +950,59 @@ func splitComplement(p *Prog, fi *FuncInfo) (bool, string) {
 	}
 	if call.Call.Args[0] != ssa.Value(addr) {
 		return false, "index is searched in another string"
+	}
+	return true, ""
+}
+
+func splitReturnsSubstrings(p *Prog, fi *FuncInfo) (bool, string) {
+	f := p.SSAFunc(fi.Obj)
+	if f == nil || len(f.Params) != 1 {
+		return false, "undecided: no SSA"
+	}
+	addr := ssa.Value(f.Params[0])
+	var bad string
+	var walk func(v ssa.Value, seen map[ssa.Value]bool)
+	walk = func(v ssa.Value, seen map[ssa.Value]bool) {
+		if seen[v] {
+			return
+		}
+		seen[v] = true
+		switch x := v.(type) {
+		case *ssa.Phi:
+			for _, e := range x.Edges {
+				walk(e, seen)
+			}
+			return
+		case *ssa.Slice:
+			walk(x.X, seen)
+			return
+		case *ssa.Const:
+			if x.Value == nil || x.Value.ExactString() == `""` {
+				return
+			}
+			bad = "the constant " + x.Value.ExactString()
+			return
+		}
+		if v == addr {
+			return
+		}
+		bad = v.String()
+	}
+	n := 0
+	for _, r := range returnsOf(f) {
+		if len(r.Results) != 3 {
+			return false, "undecided: Split no longer returns (mailbox, domain, err)"
+		}
+		for _, v := range r.Results[:2] {
+			n++
+			walk(v, map[ssa.Value]bool{})
+		}
+	}
+	if n == 0 {
+		return false, "undecided: no return"
+	}
+	if bad != "" {
+		return false, "Split returns text that is not part of its argument (" + bad + "): the address that leaves CleanDomain / ToASCII / ToUnicode is not the one the client wrote (e.g. <Postmaster> becomes <postmaster>)"
 	}
 	return true, ""
 }
